@@ -89,6 +89,13 @@ class Tokenizer(tokenizer.Tokenizer):
                     token.value = token.value[1:]
                     tokens.append(token)
 
+                elif (token.matches(type_=Token.OPERAND,
+                                    subtype=Token.RANGE) and
+                      token.value.upper() in ('TRUE', 'FALSE')):
+                    # the logical values in any case
+                    token.subtype = Token.LOGICAL
+                    tokens.append(token)
+
                 # drop unary +
                 elif not token.matches(type_=Token.OP_PRE, value='+'):
                     tokens.append(token)
